@@ -121,7 +121,11 @@ class HedGroup:
             if group._original_children is group.children:
                 group._original_children = group.children.copy()
 
-            group.children.remove(item)
+            # By identity: list.remove() would take out the first child that merely equals the item.
+            for index, child in enumerate(group.children):
+                if child is item:
+                    del group.children[index]
+                    break
             if not group.children and group is not self:
                 empty_groups.append(group)
 
